@@ -104,3 +104,57 @@ Proof.
   - unfold u16_of_i16. assert (0 <= n mod 65536 < 65536)%Z by (apply Z.mod_pos_bound; lia). change (8 ^ N.of_nat 16) with 281474976710656. lia.
   - unfold u16_of_i16. assert (0 <= n mod 65536 < 65536)%Z by (apply Z.mod_pos_bound; lia). lia.
 Qed.
+
+(* ---------- VAL / INPUT read the & forms: "&H" followed by HEX$(n) is n again, "&" followed by OCT$(n) likewise ---------- *)
+Lemma radix_fuel_nonempty : forall fuel radix n, radix_fuel (S fuel) radix n [] <> [].
+Proof.
+  intros fuel radix n. cbn [radix_fuel]. destruct (n / radix =? 0); [discriminate |].
+  assert (G : forall f q acc, acc <> [] -> radix_fuel f radix q acc <> []).
+  { induction f as [| f IH]; intros q acc Ha; cbn [radix_fuel]; [exact Ha |]. destruct (q / radix =? 0); [discriminate | apply IH; discriminate]. }
+  apply G. discriminate.
+Qed.
+
+Lemma radix_fuel_head : forall fuel radix n acc c r, 2 <= radix <= 16 ->
+  (forall a l, acc = a :: l -> exists d, d < radix /\ a = (if d <? 10 then 48 + d else 55 + d)) ->
+  radix_fuel fuel radix n acc = c :: r -> exists d, d < radix /\ c = (if d <? 10 then 48 + d else 55 + d).
+Proof.
+  induction fuel as [| f IH]; intros radix n acc c r Hr Ha H; cbn [radix_fuel] in H; [exact (Ha c r H) |].
+  set (d := n mod radix) in *. assert (Hd : d < radix) by (apply N.mod_lt; lia).
+  destruct (n / radix =? 0); [injection H as <- _; exists d; split; [exact Hd | reflexivity] |].
+  apply (IH radix _ _ c r Hr) in H; [exact H |]. intros a l E. injection E as <- _. exists d. split; [exact Hd | reflexivity].
+Qed.
+
+Theorem val_reads_hex : forall n, (0 <= n <= 32767)%Z ->
+  exists s, fn_hex (VInt n) = Ok (VStr s) /\ val_from_str (38 :: 72 :: s) = VInt n.
+Proof.
+  intros n Hn. eexists. split; [reflexivity |]. unfold val_from_str. cbn [N.eqb orb]. replace (72 =? 72) with true by reflexivity. cbn [orb].
+  unfold i16_from_str_radix. set (s := radix_fuel 16 16 (u16_of_i16 n) []).
+  assert (Hne : s <> []) by apply radix_fuel_nonempty.
+  destruct s as [| c r] eqn:Es; [contradiction |].
+  destruct (radix_fuel_head 16 16 (u16_of_i16 n) [] c r ltac:(lia) ltac:(intros a l E; discriminate) Es) as [d [Hd Hc]].
+  destruct (N.eqb_spec c 45); [destruct (N.ltb_spec d 10); lia |]. destruct (N.eqb_spec c 43); [destruct (N.ltb_spec d 10); lia |].
+  rewrite <- Es. unfold s. rewrite radix_round; [| lia | | ].
+  - cbn [radix_digits]. unfold u16_of_i16. rewrite Z.mod_small by lia. rewrite Z2N.id by lia.
+    unfold in_i16. destruct (Z.leb_spec (-32768) n), (Z.leb_spec n 32767); try lia. reflexivity.
+  - unfold u16_of_i16. rewrite Z.mod_small by lia. change (16 ^ N.of_nat 16) with 18446744073709551616. lia.
+  - unfold u16_of_i16. rewrite Z.mod_small by lia. lia.
+Qed.
+
+Theorem val_reads_oct : forall n, (0 <= n <= 32767)%Z ->
+  exists s, fn_oct (VInt n) = Ok (VStr s) /\ val_from_str (38 :: s) = VInt n.
+Proof.
+  intros n Hn. eexists. split; [reflexivity |]. unfold val_from_str. cbn [N.eqb orb]. replace (38 =? 38) with true by reflexivity.
+  set (s := radix_fuel 16 8 (u16_of_i16 n) []).
+  assert (Hne : s <> []) by apply radix_fuel_nonempty.
+  destruct s as [| c r] eqn:Es; [contradiction |].
+  destruct (radix_fuel_head 16 8 (u16_of_i16 n) [] c r ltac:(lia) ltac:(intros a l E; discriminate) Es) as [d [Hd Hc]].
+  assert (Hr : 48 <= c <= 55) by (destruct (N.ltb_spec d 10); lia).
+  destruct (N.eqb_spec c 72); [lia |]. destruct (N.eqb_spec c 104); [lia |]. cbn [orb].
+  unfold i16_from_str_radix.
+  destruct (N.eqb_spec c 45); [lia |]. destruct (N.eqb_spec c 43); [lia |].
+  rewrite <- Es. unfold s. rewrite radix_round; [| lia | | ].
+  - cbn [radix_digits]. unfold u16_of_i16. rewrite Z.mod_small by lia. rewrite Z2N.id by lia.
+    unfold in_i16. destruct (Z.leb_spec (-32768) n), (Z.leb_spec n 32767); try lia. reflexivity.
+  - unfold u16_of_i16. rewrite Z.mod_small by lia. change (8 ^ N.of_nat 16) with 281474976710656. lia.
+  - unfold u16_of_i16. rewrite Z.mod_small by lia. lia.
+Qed.
